@@ -102,6 +102,19 @@ theorem Frag.toNode_scale (f : Int) (g : Frag) (hg : ∀ st c, g ≠ .cellText s
   | text st c =>
     simp [Frag.scale, Frag.toNode, Node.mulNum, Node.mulNumList, AttrVal.mulNum, Pt.scale]
 
+theorem extendFirstClass_mulNum (f : Int) (vals : List AttrVal)
+    (attrs : List (AttrName × List AttrVal)) :
+    (extendFirstClass vals attrs).map (fun a => (a.1, a.2.map (AttrVal.mulNum f))) =
+      extendFirstClass (vals.map (AttrVal.mulNum f))
+        (attrs.map fun a => (a.1, a.2.map (AttrVal.mulNum f))) := by
+  induction attrs with
+  | nil => simp [extendFirstClass]
+  | cons a as ih =>
+    simp only [extendFirstClass, List.map_cons]
+    split
+    · simp
+    · simp [ih]
+
 theorem addClasses_mulNum (f : Int) (tags : List (List Char)) (n : Node) :
     Node.mulNum f (addClasses tags n) = addClasses tags (Node.mulNum f n) := by
   cases n with
@@ -113,13 +126,12 @@ theorem addClasses_mulNum (f : Int) (tags : List (List Char)) (n : Node) :
       induction attrs with
       | nil => simp
       | cons a as ih => simp [List.any_cons, ih]
+    have hvals : (tags.map AttrVal.token).map (AttrVal.mulNum f) = tags.map AttrVal.token := by
+      simp [List.map_map, Function.comp, AttrVal.mulNum]
     rw [hany]
     split
-    · simp only [Node.mulNum, List.map_map, Node.elem.injEq, true_and, and_true]
-      apply List.map_congr_left
-      intro a _
-      simp only [Function.comp]
-      split <;> simp [AttrVal.mulNum, List.map_map, Function.comp]
+    · simp only [Node.mulNum, Node.elem.injEq, true_and, and_true]
+      rw [extendFirstClass_mulNum, hvals]
     · simp [Node.mulNum, AttrVal.mulNum, List.map_map, Function.comp]
 
 /-- a scale-1 fragment of the forest is never a `CellText` -/
